@@ -187,14 +187,14 @@ macro_rules! define_unit_vm {
     };
 }
 
-// The default unit VM: every piece of per-object metadata on the side.
+// The default unit VM: per-object metadata bits on the side.  (The forwarding *pointer* stays in
+// the header: a side forwarding pointer makes the side-metadata reservation ~144 TiB, which this
+// host refuses with ENOMEM.)
 define_unit_vm!(
     SideVM,
     log: mmtk::vm::VMGlobalLogBitSpec::side_first(),
-    fwd_ptr: mmtk::vm::VMLocalForwardingPointerSpec::side_first(),
-    fwd_bits: mmtk::vm::VMLocalForwardingBitsSpec::side_after(
-        <SideVM as mmtk::vm::ObjectModel<SideVM>>::LOCAL_FORWARDING_POINTER_SPEC.as_spec()
-    ),
+    fwd_ptr: mmtk::vm::VMLocalForwardingPointerSpec::in_header(0),
+    fwd_bits: mmtk::vm::VMLocalForwardingBitsSpec::side_first(),
     mark: mmtk::vm::VMLocalMarkBitSpec::side_after(
         <SideVM as mmtk::vm::ObjectModel<SideVM>>::LOCAL_FORWARDING_BITS_SPEC.as_spec()
     ),
